@@ -53,6 +53,16 @@ const origVal = 5
 func baseContainer(name string) *api.Container {
 	m := map[merge.Item]int{}
 	var l map[string][]int
+	if name == "dense" {
+		// both keys of every keyed family present (neighbours in every list)
+		for _, k := range items.Kinds {
+			if k.Keyed && k.Name != "cdi" && k.Name != "rlimit" {
+				m[merge.Item{Kind: k.Name, Key: k.Keys[0]}] = origVal
+				m[merge.Item{Kind: k.Name, Key: k.Keys[1]}] = origVal + 1
+			}
+		}
+		return items.BuildContainer("c0", m, nil)
+	}
 	if name == "populated" {
 		l = map[string][]int{}
 		for _, k := range items.Kinds {
@@ -551,7 +561,7 @@ func famCombos(kind string) [][]merge.Op {
 }
 
 func generate(f *rep.Flags, bounds map[string]any, emit func(*Case)) {
-	bases := []string{"minimal", "populated"}
+	bases := []string{"minimal", "populated", "dense"}
 	n := map[string]int{}
 	out := func(c *Case) { n[c.Family]++; emit(c) }
 	var kinds []string
@@ -569,7 +579,7 @@ func generate(f *rep.Flags, bounds map[string]any, emit func(*Case)) {
 		}
 	}
 	// pairs of families
-	for _, b := range bases {
+	for _, b := range bases[:2] {
 		for i, k1 := range kinds {
 			for _, k2 := range kinds[i+1:] {
 				c1, c2 := famCombos(k1), famCombos(k2)
@@ -594,7 +604,7 @@ func generate(f *rep.Flags, bounds map[string]any, emit func(*Case)) {
 		}
 	}
 	// everything at once
-	for _, b := range bases {
+	for _, b := range bases[:2] {
 		for variant := 0; variant < 4; variant++ {
 			var ops []merge.Op
 			for _, k := range kinds {
@@ -615,7 +625,7 @@ func generate(f *rep.Flags, bounds map[string]any, emit func(*Case)) {
 	var rec func()
 	rec = func() {
 		if len(sel) > 0 {
-			for _, b := range bases {
+			for _, b := range bases[:2] {
 				for _, rm := range []bool{false, true} {
 					c := &Case{Family: "mountorder", Base: b, Mounts: append([]string(nil), sel...), Focus: []string{"mount"}}
 					if rm {
